@@ -396,6 +396,7 @@ struct World
     void check_purity_end(const char* what);
     void purity_extras();
     void table_read_all();  // table.cpp: every read accessor of the 2.x table API
+    void table_read_all_unguarded();  // the same inside ONE bracketed call (an armed fault stays armed)
     std::string table_digest();
     void check_roundtrip(const dj::track_snapshot& written, dj::track& t,
                          const char* opname, bool is_create);
